@@ -6,6 +6,8 @@ def run_coord_mc(ck):
     nn = ck.path("nn-cases.ndjson")
     ck.tlc("CoordMC", "MC_Coord.%s.cfg" % ck.tier, env={"VF_OUT": box, "VF_OUT2": nn}, timeout=900)
     ck.cov["exhaustive"] = True
+    # unbounded, machine-checked versions of the per-axis laws (clamp in box / idempotent / = median; nearest = within one half)
+    ck.tlaps("CoordProofs", ["Coord"])
     return box, nn
 
 
